@@ -58,7 +58,7 @@ func propC07Handlers(r *Run) {
 				r.FailOther("C10", wedgeSignature(wedge), "%s", wedge)
 			}
 		}
-		for k := 0; k < 2+r.Choose("nlogins", 4); k++ {
+		for k, kN := 0, 2+r.Choose("nlogins", 4); k < kN; k++ {
 			h := r.Choose("login-handler", nh)
 			u := []string{"root", "plain"}[r.Choose("login-user", 2)]
 			c := &Call{Kind: "authenticate", Via: "api", Agent: handlers[h].idx, User: u, PW: pw[u]}
